@@ -141,6 +141,10 @@ pub enum COp {
     AsSmall,
     As50k,
     AsDeclined,
+    /// not a request: from here on another connection to the database stays open (an overlapping
+    /// request that has opened its connection, another worker, another instance), so that closing
+    /// a request's own connection no longer checkpoints
+    HoldConnection,
 }
 
 impl COp {
@@ -154,12 +158,14 @@ impl COp {
             COp::AsSmall => "AddSnapshot(A, latest, 20B)",
             COp::As50k => "AddSnapshot(A, latest, 50KB)",
             COp::AsDeclined => "AddSnapshot(A, unknown id) [declined]",
+            COp::HoldConnection => "<another connection stays open>",
         }
     }
     pub fn parse(s: &str) -> Option<COp> {
-        [COp::AvNewClient, COp::AvSmall, COp::Av10k, COp::Av1m, COp::Av100k, COp::AsSmall, COp::As50k, COp::AsDeclined].into_iter().find(|c| c.name() == s)
+        [COp::AvNewClient, COp::AvSmall, COp::Av10k, COp::Av1m, COp::Av100k, COp::AsSmall, COp::As50k, COp::AsDeclined, COp::HoldConnection].into_iter().find(|c| c.name() == s)
     }
     pub fn all() -> Vec<COp> {
+        // (HoldConnection is added by `histories`, it is not a request)
         vec![COp::AvNewClient, COp::AvSmall, COp::Av10k, COp::Av1m, COp::AsSmall, COp::As50k, COp::AsDeclined]
     }
 }
@@ -192,8 +198,16 @@ pub fn record(hist: &[COp], seed: u64) -> Result<Recorded, String> {
     let mut model = Model::new(cfg);
     let mut models = vec![model.clone()];
     let mut ops = vec![];
-    for (i, op) in hist.iter().enumerate() {
-        let k = i + 1;
+    let mut held: Option<rusqlite::Connection> = None;
+    let mut k = 0usize;
+    for op in hist.iter() {
+        if *op == COp::HoldConnection {
+            let con = rusqlite::Connection::open(dir.join(DB_FILE)).map_err(|e| format!("second connection: {e}"))?;
+            let _n: i64 = con.query_row("SELECT count(*) FROM clients", [], |r| r.get(0)).map_err(|e| format!("second connection: {e}"))?;
+            held = Some(con);
+            continue;
+        }
+        k += 1;
         let latest_a = model.client(0).map(|c| c.latest()).unwrap_or(NIL);
         let sop = match op {
             COp::AvNewClient => {
@@ -208,6 +222,7 @@ pub fn record(hist: &[COp], seed: u64) -> Result<Recorded, String> {
             COp::AsSmall => SymOp::AddSnapshot { c: 0, v: latest_a, data: body(20, 100 + k as u8) },
             COp::As50k => SymOp::AddSnapshot { c: 0, v: latest_a, data: body(50_000, 100 + k as u8) },
             COp::AsDeclined => SymOp::AddSnapshot { c: 0, v: 7000 + k as Sid, data: body(20, 200 + k as u8) },
+            COp::HoldConnection => unreachable!(),
         };
         rec.marker(&format!("begin {k}"));
         let new_sid = model.next_sid;
@@ -233,6 +248,7 @@ pub fn record(hist: &[COp], seed: u64) -> Result<Recorded, String> {
         models.push(model.clone());
         ops.push(sop);
     }
+    drop(held);
     crate::vfs::set_hook(None);
     let final_files = crate::sut::read_dir_image(&dir);
     let log = rec.take();
@@ -621,6 +637,8 @@ pub fn histories(quick: bool) -> Vec<Vec<COp>> {
             vec![COp::AvSmall, COp::Av10k, COp::As50k, COp::AvSmall],
             vec![COp::AvSmall, COp::AsSmall, COp::AsDeclined, COp::AvNewClient],
             vec![COp::Av100k],
+            vec![COp::HoldConnection, COp::AvSmall, COp::AsSmall, COp::AvNewClient],
+            vec![COp::AvSmall, COp::HoldConnection, COp::Av10k, COp::AvSmall],
         ];
     }
     let all = COp::all();
@@ -642,6 +660,14 @@ pub fn histories(quick: bool) -> Vec<Vec<COp>> {
         out.extend(next.clone());
         level = next;
     }
+    // every history of up to two requests again while another connection stays open
+    let mut held = vec![];
+    for hst in out.iter().filter(|h| !h.is_empty() && h.len() <= 2) {
+        let mut h2 = vec![COp::HoldConnection];
+        h2.extend(hst.iter().cloned());
+        held.push(h2);
+    }
+    out.extend(held);
     // a few length-4 histories mixing everything
     out.push(vec![COp::AvNewClient, COp::Av10k, COp::As50k, COp::AvNewClient]);
     out.push(vec![COp::AvSmall, COp::AsSmall, COp::Av1m, COp::AsSmall]);
